@@ -134,7 +134,10 @@ def gen_padded(rng, tier, idx):
     first = rng.choice(["a", "b"])
     cmds.append(["commit", first])
     cmds.append(["commit", "b" if first == "a" else "a"])
-    cmds.append(["check"])
+    # half of the cases: the transaction that got ConflictError is retried on the SAME connection (abort,
+    # run its operations again, commit) - the ordinary reaction to a conflict; afterwards the catalog must
+    # look like base, winner, loser in that order (seeded change C19_C kept per-connection state across abort)
+    cmds.append([rng.choice(["check", "retrycheck"])])
     r = rng.random()
     if r < 0.25:
         present = list(c09.ALL)
@@ -199,7 +202,10 @@ def gen(rng, tier, idx):
     first = rng.choice(["a", "b"])
     cmds.append(["commit", first])
     cmds.append(["commit", "b" if first == "a" else "a"])
-    cmds.append(["check"])
+    # half of the cases: the transaction that got ConflictError is retried on the SAME connection (abort,
+    # run its operations again, commit) - the ordinary reaction to a conflict; afterwards the catalog must
+    # look like base, winner, loser in that order (seeded change C19_C kept per-connection state across abort)
+    cmds.append([rng.choice(["check", "retrycheck"])])
     r = rng.random()
     if r < 0.3:
         present = list(c09.ALL)
@@ -235,6 +241,7 @@ def impl_run(hyp, case):
         tm0.commit()
         tms = {}
         conns = {}
+        outcomes = {}
         for c in case["cmds"]:
             try:
                 op = c[0]
@@ -260,7 +267,23 @@ def impl_run(hyp, case):
                     except ConflictError:
                         tms[w].abort()
                         out.append("conflict")
-                elif op == "check":
+                    outcomes[w] = out[-1]
+                elif op in ("check", "retrycheck"):
+                    if op == "retrycheck":
+                        for w in ("a", "b"):
+                            if outcomes.get(w) == "conflict":
+                                for attempt in range(3):
+                                    tms[w].abort()      # (already aborted; begins a new transaction at the latest state)
+                                    for c2 in case["cmds"]:
+                                        if c2[0] == w:
+                                            c09.apply_op(conns[w].root()["cat"], ["op"] + list(c2[1:]))
+                                    try:
+                                        tms[w].commit()
+                                        break
+                                    except ConflictError:
+                                        tms[w].abort()
+                                else:
+                                    raise RuntimeError("retry keeps conflicting without a concurrent writer")
                     for w in ("a", "b"):
                         tms[w].abort()
                         conns[w].close()
@@ -304,6 +327,10 @@ def post_model(hyp, case, mouts, iouts=None):
                 res.append("no-admissible-outcome " + key)
                 continue
             ks = [int(x) for x in pick[0][len(key):].split()]
+            if any(c[0] == "retrycheck" for c in case["cmds"]):
+                for w in [c[1] for c in case["cmds"] if c[0] == "commit"]:
+                    if outcome.get(w) == "conflict":
+                        ks += [c[1] for c in case["cmds"] if c[0] == w]
             cat = c09.make_catalog(cutoff, case["cfg"][2][2:], cfgval(case, "thr", 2))
             try:
                 for k in ks:
@@ -316,9 +343,13 @@ def post_model(hyp, case, mouts, iouts=None):
     return res
 
 
+def model_cmd(c):
+    return ["check"] if c[0] == "retrycheck" else c
+
+
 def keep_cmd(c):
     """shrinking never drops the protocol skeleton (begin / the two commits / check)"""
-    return c[0] in ("begin", "commit", "check")
+    return c[0] in ("begin", "commit", "check", "retrycheck")
 
 
 def same(a, b):
